@@ -24,7 +24,7 @@ CHECKS = {
 CHECKS["C11"] = (
     "stateful / model-based property testing: exhaustive short histories over the cache-key classes + proptest-generated operation sequences (getters, clones) against a fresh-state reference model; real-thread stress runs; differential par_pure vs pure",
     "Histories: all sequences of the 12 atomic getters (one per cache-key class and dual-number type) up to length 2 (quick) / 3 (thorough) are enumerated exhaustively on five fixed systems, and thousands of generated sequences of up to 50 operations over 66 getters and clone operations are run on fixed systems and on the whole model zoo; after every step the returned value must equal the value of that getter on a fresh state. Schedules: the same sequences are executed by 2-16 real threads on one shared state. par_pure is compared with pure over generated (record, T_min, npoints, chunksize, pool sizes). Exploration; interleavings are not enumerated (see note).",
-    "Thread schedules are reduced to histories by the single Mutex around lookup+compute (feos-core/src/state/residual_properties.rs); a lock-free cache would need a schedule-owning tool instead. Tolerance 1e-9 relative plus a measured conditioning allowance; states below f_eta = 0.02 are not used (A_res itself is only 1e-9 accurate there). par_pure vs pure: densities/pressures to 1e-8 (chunks restart without continuation), temperatures/order/pool-size independence to 1e-13.",
+    "Thread schedules are reduced to histories by the single Mutex around lookup+compute (feos-core/src/state/residual_properties.rs); a lock-free cache would need a schedule-owning tool instead. Tolerance 1e-9 relative plus a measured conditioning allowance; the 12 atomic getters (one cache entry each) of models without an association term additionally to 1e-11 of the contribution-wise absolute sum of that derivative of A (the real part of every dual-number evaluation must be the f64 evaluation up to roundoff); states below f_eta = 0.02 are not used (A_res itself is only 1e-9 accurate there). par_pure vs pure: densities/pressures to 1e-8 (chunks restart without continuation), temperatures/order/pool-size independence to 1e-13.",
     "DESIGN.md section 4, C11",
 )
 
@@ -75,7 +75,7 @@ CHECKS["C20"] = (
 
 CHECKS["C05"] = (
     "property-based testing with defining-residual oracles: isofugacity, common T and p, material balance, specified composition, non-copies, p_bubble >= p_dew recomputed from fresh states at the returned (T,V,N); seed-independent success lattice over hydrocarbon pairs of gross2001; generated options, initial guesses, diagrams, heteroazeotropes / LLE",
-    "Lattice: 243 (quick) / all 974 (thorough) admissible hydrocarbon pairs x 6 temperatures x 7 compositions: bubble and dew points must be found, flashes at theta in {0.1,0.5,0.9} of the envelope must be found when p_bub/p_dew > 1.05. Sampled: 6 000 bubble / dew / flash problems on binary and ternary PC-SAFT, gc-PC-SAFT and SAFT-VR Mie mixtures with solver options and initial guesses, 400 diagrams (binary_vle at T and p, bubble / dew lines), 1 000 water + alcohol / hydrocarbon heteroazeotrope, VLLE and LLE problems.",
+    "Lattice: 243 (quick) / all 974 (thorough) admissible hydrocarbon pairs x 6 temperatures x 7 compositions: bubble and dew points must be found, flashes at theta in {0.1,0.5,0.9} of the envelope must be found when p_bub/p_dew > 1.05. Sampled: 6 000 bubble / dew / flash problems on binary and ternary PC-SAFT, gc-PC-SAFT and SAFT-VR Mie mixtures with solver options and initial guesses (incl. flash results from another temperature and from the other end of the same envelope; a guided flash with default options may not fail where the unguided one returns a phase split), 400 diagrams (binary_vle at T and p, bubble / dew lines), 1 000 water + alcohol / hydrocarbon heteroazeotrope, VLLE and LLE problems.",
     "Fugacity equality is tested on ln(x phi p) and pressure equality separately (ln phi of a liquid at vanishing pressure carries the pressure roundoff). p_bubble >= p_dew only where both results are stable vapour-liquid pairs. Tolerances: |d ln f| 1e-6, pressures 1e-7 rel + absolute term, balances 1e-12. Open known findings masked by signature: rachford_rice failures for 5 % C16-C20 alkane in C5-C7 ring/aromatic solvents at theta = 0.5, zero-pressure gas pairs (SAFT-VR Mie), heteroazeotrope with identical phases, near-trivial two-phase results, result beyond max_density.",
     "DESIGN.md section 4, C05",
 )
